@@ -60,6 +60,7 @@ class World:
     def conn(self, c):
         if c not in self.conns:
             self.conns[c] = bridge.Conn(address=('client', c), chunker=bridge.STATE['chunker'])
+            self.conns[c].defer_lost = True  # connectionLost after a server-side close is a separate event
             self.pos[c] = 0
         return self.conns[c]
 
@@ -77,15 +78,16 @@ class World:
     def snapshot(self):
         def ph(c):
             if c not in self.conns:
-                return 'new'
+                return 'open'
             conn = self.conns[c]
-            return 'closed' if (conn.lost or conn.server_closed) else 'asked' if getattr(conn, 'asked', False) else 'new'
+            return 'closed' if conn.lost else 'closing' if conn.server_closed else 'open'
 
         return {
             'lock': bool(dawgie.context.db_lock),
             'has': {str(c): bool(self.conns[c].has_lock) if c in self.conns else False for c in self.clients},
             'ph': {str(c): ph(c) for c in self.clients},
             'stopped': {str(c): bool(getattr(self.conns[c].worker, '_Worker__looping_call_stopped')) if c in self.conns else False for c in self.clients},
+            'req': {str(c): bool(getattr(self.conns[c], 'asked', False)) if c in self.conns else False for c in self.clients},
         }
 
 
@@ -98,7 +100,7 @@ def run_job(job):
         obs = {'told': [], 'client_acquired': False}
         st0 = w.snapshot()
         if ev == 'Request':
-            if st0['ph'][str(c)] != 'new':
+            if st0['ph'][str(c)] != 'open' or st0['req'][str(c)]:
                 skipped += 1
                 continue
             conn = w.conn(c)
@@ -122,12 +124,12 @@ def run_job(job):
             else:
                 w.send_cmd(c, Func.acquire, f'client{c}')
         elif ev == 'Poll':
-            if st0['ph'][str(c)] == 'new':
+            if not st0['req'][str(c)]:
                 skipped += 1
                 continue
             w.conns[c].poll(3)
         elif ev == 'Release':
-            if st0['ph'][str(c)] == 'closed':
+            if st0['ph'][str(c)] != 'open':
                 skipped += 1
                 continue
             if e.get('real') and c in w.socks:
@@ -138,15 +140,21 @@ def run_job(job):
             if st0['ph'][str(c)] == 'closed':
                 skipped += 1
                 continue
-            w.conn(c).drop()
+            if st0['ph'][str(c)] == 'closing':
+                w.conn(c).deliver_lost()
+            else:
+                w.conn(c).drop()
         else:
             raise ValueError(ev)
         obs['told'] = w.told()
         steps.append({'ev': ev, 'args': {'c': c}, 'st': w.snapshot(), 'obs': obs})
     # quiescence: every connection goes away
     for c in job['clients']:
-        if c in w.conns and not (w.conns[c].lost or w.conns[c].server_closed):
-            w.conns[c].drop()
+        if c in w.conns and not w.conns[c].lost:
+            if w.conns[c].server_closed:
+                w.conns[c].deliver_lost()
+            else:
+                w.conns[c].drop()
             steps.append({'ev': 'Disconnect', 'args': {'c': c}, 'st': w.snapshot(), 'obs': {'told': w.told(), 'client_acquired': False}})
     steps.append({'ev': 'Quiesce', 'args': {'c': 0}, 'st': w.snapshot(), 'obs': {'told': [], 'client_acquired': False}})
     return {'tid': job['id'], 'steps': steps, 'final': {'skipped': skipped}}
